@@ -56,11 +56,12 @@ func c17SP() *saml2.SAMLServiceProvider {
 	return sp
 }
 
-var c17Ops = []string{"SigningContext", "BuildAuthRequest", "BuildLogoutRequestDocument", "BuildLogoutResponseDocument", "BuildAuthURLRedirect", "ValidateEncodedResponse(A)", "ValidateEncodedResponse(B)", "RetrieveAssertionInfo(A)", "Metadata", "ValidateLogoutRequest", "GetSigningCertBytes", "BuildAuthBodyPost(relay-one)", "BuildAuthBodyPost(relay-two)", "BuildAuthURL(relay-one)", "BuildLogoutBodyPost", "BuildLogoutResponseBodyPost", "BuildLogoutURLRedirect", "ValidateLogoutResponse", "DecodeUnverifiedBaseResponse"}
+var c17Ops = []string{"SigningContext", "BuildAuthRequest", "BuildLogoutRequestDocument", "BuildLogoutResponseDocument", "BuildAuthURLRedirect", "ValidateEncodedResponse(A)", "ValidateEncodedResponse(B)", "RetrieveAssertionInfo(A)", "Metadata", "ValidateLogoutRequest", "GetSigningCertBytes", "BuildAuthBodyPost(relay-one)", "BuildAuthBodyPost(relay-two)", "BuildAuthURL(relay-one)", "BuildLogoutBodyPost", "BuildLogoutResponseBodyPost", "BuildLogoutURLRedirect", "ValidateLogoutResponse", "DecodeUnverifiedBaseResponse", "ValidateEncodedResponse(E)"}
 
 var (
 	c17Once                        sync.Once
 	c17MsgA, c17MsgB, c17MsgLogout string
+	c17MsgE                        string // a Response-signed message whose assertion is encrypted (RSA-OAEP, AES-GCM)
 	c17TupA, c17TupB               string
 )
 
@@ -79,6 +80,11 @@ func c17Init() {
 		l := idp.DefaultLogout("LogoutRequest")
 		l.Sign = idp.SignSpec{Key: "K3"}
 		c17MsgLogout = idp.RenderLogout(l)
+		e := idp.DefaultResponse(1)
+		uniq(&e, "c17e")
+		e.Sign = idp.SignSpec{Key: "K3"}
+		e.Assertions[0].Encrypt = &idp.EncSpec{}
+		c17MsgE = idp.RenderResponse(e)
 		ra, _ := validateResponse(c17SP(), c17MsgA)
 		rb, _ := validateResponse(c17SP(), c17MsgB)
 		c17TupA, c17TupB = oracle.FromResponse(ra).Key(), oracle.FromResponse(rb).Key()
@@ -135,10 +141,13 @@ func c17Do(sp *saml2.SAMLServiceProvider, op int) (o c17Obs) {
 		if err != nil {
 			o.Err = err.Error()
 		}
-	case "ValidateEncodedResponse(A)", "ValidateEncodedResponse(B)":
+	case "ValidateEncodedResponse(A)", "ValidateEncodedResponse(B)", "ValidateEncodedResponse(E)":
 		m := c17MsgA
 		if strings.HasSuffix(c17Ops[op], "(B)") {
 			m = c17MsgB
+		}
+		if strings.HasSuffix(c17Ops[op], "(E)") {
+			m = c17MsgE
 		}
 		r, err := sp.ValidateEncodedResponse(m)
 		if err != nil {
@@ -433,6 +442,8 @@ func c17Scenarios(thorough bool) []c17Scenario {
 		{"3 threads: GetSigningCertBytes;BuildLogoutRequestDocument || Metadata || RetrieveAssertionInfo(A)", [][]int{{o("GetSigningCertBytes"), o("BuildLogoutRequestDocument")}, {o("Metadata")}, {o("RetrieveAssertionInfo(A)")}}},
 		{"BuildAuthBodyPost(relay-one) || BuildAuthBodyPost(relay-two);BuildAuthURL", [][]int{{o("BuildAuthBodyPost(relay-one)")}, {o("BuildAuthBodyPost(relay-two)"), o("BuildAuthURL(relay-one)")}}},
 		{"BuildLogoutBodyPost || BuildLogoutResponseBodyPost;BuildLogoutURLRedirect", [][]int{{o("BuildLogoutBodyPost")}, {o("BuildLogoutResponseBodyPost"), o("BuildLogoutURLRedirect")}}},
+		{"Validate(E) || Validate(E)", [][]int{{o("ValidateEncodedResponse(E)")}, {o("ValidateEncodedResponse(E)")}}},
+		{"Validate(E) || Validate(A);Validate(E)", [][]int{{o("ValidateEncodedResponse(E)")}, {o("ValidateEncodedResponse(A)"), o("ValidateEncodedResponse(E)")}}},
 		{"3 threads: ValidateLogoutResponse || DecodeUnverifiedBaseResponse || ValidateLogoutRequest", [][]int{{o("ValidateLogoutResponse")}, {o("DecodeUnverifiedBaseResponse")}, {o("ValidateLogoutRequest")}}},
 	}
 	if thorough {
@@ -821,7 +832,7 @@ func c17Run(r *mc.Run) {
 	if r.Thorough() {
 		bound = 3
 	}
-	r.Rule = "(a) E-SCHED: every interleaving with <= 2 (quick) / <= 3 (thorough) preemptions (unbounded for the first-use race) of 12 (thorough 14) scenarios of 2-3 managed goroutines x 1-2 operations out of 19 on one shared SP with a non-default algorithm and canonicaliser, on an overlay build whose scheduling points are the sync shim operations plus a yield before every statement touching a written package-level variable or written SAMLServiceProvider field; oracle: no deadlock/panic, every call returns what it returns alone on a fresh SP, SigningContext fully configured when observed. (b) E-BFS over call histories: all sequences up to depth 3 (quick) / 4 (thorough) over 11 operations incl. scribbling over the previous result (every field, slice element and map entry reachable from it, in place); deep reflective snapshot of the configuration unchanged, outcome equal to a fresh instance and to the outcome of the same call before any result was written to (package-level state shared by all instances), and every result handed out earlier still unchanged after every later call. (c) free-running -race pass of the same bodies (sampling; supporting). non-trivial = an execution with at least one preemption, or a history of length >= 2; distinct = distinct schedule / history"
+	r.Rule = "(a) E-SCHED: every interleaving with <= 2 (quick) / <= 3 (thorough) preemptions (unbounded for the first-use race) of 14 (thorough 16) scenarios of 2-3 managed goroutines x 1-2 operations out of 20 (incl. a Response with an encrypted assertion) on one shared SP with a non-default algorithm and canonicaliser, on an overlay build whose scheduling points are the sync shim operations plus a yield before every statement touching a written package-level variable or written SAMLServiceProvider field; oracle: no deadlock/panic, every call returns what it returns alone on a fresh SP, SigningContext fully configured when observed. (b) E-BFS over call histories: all sequences up to depth 3 (quick) / 4 (thorough) over 11 operations incl. scribbling over the previous result (every field, slice element and map entry reachable from it, in place); deep reflective snapshot of the configuration unchanged, outcome equal to a fresh instance and to the outcome of the same call before any result was written to (package-level state shared by all instances), and every result handed out earlier still unchanged after every later call. (c) free-running -race pass of the same bodies (sampling; supporting). non-trivial = an execution with at least one preemption, or a history of length >= 2; distinct = distinct schedule / history"
 	r.Assume("scheduling points are sufficient only together with the race pass (c), which is sampling", "the overlay is regenerated from /repo's working tree on every run (instr report in evidence)")
 	if b, err := os.ReadFile(os.Getenv("VERIF_INSTR_REPORT")); err == nil {
 		var rep map[string]interface{}
